@@ -529,8 +529,9 @@ class IntersectionMatcher(AdditiveBiMatcher):
             if aq < bq:
                 # If the block quality of A is less than B, skip A ahead until
                 # it can contribute at least the balance of the required min
-                # quality when added to B
-                sk = a.skip_to_quality(minquality - bq)
+                # quality when added to the best remaining posting of B (B's
+                # current block does not cover the blocks A skips over)
+                sk = a.skip_to_quality(minquality - b.max_quality())
                 skipped += sk
                 if not sk and a.is_active():
                     # The matcher couldn't skip ahead for some reason, so just
@@ -538,7 +539,7 @@ class IntersectionMatcher(AdditiveBiMatcher):
                     a.next()
             else:
                 # And vice-versa
-                sk = b.skip_to_quality(minquality - aq)
+                sk = b.skip_to_quality(minquality - a.max_quality())
                 skipped += sk
                 if not sk and b.is_active():
                     b.next()
